@@ -146,16 +146,21 @@ EXPORT errno_t _wcsicmp_s_chk(const wchar_t *restrict dest, rsize_t dmax,
         wchar_t *c2 = f1 + 3 * l1 + 5;     /* copy of src */
         wchar_t *f2 = c2 + l2 + 1;         /* folded src */
         rsize_t n1 = l1, n2 = l2;
+        /* the buffers have room for the longest folding; what is declared to
+           the checked functions must stay within their limit, or operands of
+           a few hundred characters are refused */
+        rsize_t m1 = 3 * n1 + 5 > RSIZE_MAX_WSTR ? RSIZE_MAX_WSTR : 3 * n1 + 5;
+        rsize_t m2 = 3 * n2 + 5 > RSIZE_MAX_WSTR ? RSIZE_MAX_WSTR : 3 * n2 + 5;
         memcpy(c1, dest, n1 * sizeof(wchar_t));
         c1[n1] = L'\0';
         memcpy(c2, src, n2 * sizeof(wchar_t));
         c2[n2] = L'\0';
         d2 = NULL;
-        rc = wcsfc_s(f1, 3 * n1 + 5, c1, &l1);
+        rc = wcsfc_s(f1, m1, c1, &l1);
         if (rc == EOK)
-            rc = wcsfc_s(f2, 3 * n2 + 5, c2, &l2);
+            rc = wcsfc_s(f2, m2, c2, &l2);
         if (rc == EOK)
-            rc = _wcscmp_s_chk(f1, 3 * n1 + 5, f2, 3 * n2 + 5, resultp,
+            rc = _wcscmp_s_chk(f1, m1, f2, m2, resultp,
                                (3 * n1 + 5) * sizeof(wchar_t),
                                (3 * n2 + 5) * sizeof(wchar_t));
     }
